@@ -31,6 +31,8 @@ RULE = (
     "x-interval inside the domain, length <= min(2.5, 2/L) with L the Lipschitz bound of the companion system) + IVP method "
     "(RK45, DOP853, Radau, LSODA, RK23, BDF) + solver tolerance (IVP rtol=atol in 1e-8..1e-10, BVP tol in 1e-6..1e-9). non-trivial = (order >= 2 and a transform) or a non-constant coefficient; distinct = distinct descriptor"
 )
+RULE = RULE + " " + 'A quarter of the forward (non-inverted) exp/power/becke/knowles/handy/multiexp maps get a length scale of 1e-3, 1e-6 or 1e-9 (rmin, rmax, R multiplied); pinned small-scale third-order cases.'
+
 ASSUMPTIONS = [
     "error model: |returned - exact| <= C * tol * G * S for y and every returned x-derivative, with "
     "S = max over the interval and over k of S_k(x), S_0 = 1+|y|, S_k = sum_j |M_kj(x)| (1+|d^j y/dr^j|), M the chain-rule "
